@@ -662,9 +662,11 @@ def random_programs(seed, count):
         enums, fields, pos = [], [], rnd.choice([0, 0, 1])
         while pos < base and len(fields) < 6:
             room = base - pos
-            kind = rnd.choice(["bool", "u", "u", "u", "i", "arr", "nc", "enum", "arrb"])
+            kind = rnd.choice(["bool", "u", "u", "u", "i", "arr", "nc", "enum", "arrb", "ncarr", "iarr", "earr"])
             acc_ = rnd.choice(["rw", "rw", "rw", "r", "w"])
             nm = f"f{len(fields)}"
+            sty = rnd.choice(["std", "std", "std", "access_first", "stride_first", "stride_mid", "stride_first_colon", "zpad", "range1"])
+            nfields = len(fields)
             if kind == "bool":
                 fields.append(F(nm, T_bool(), (pos, 1), access=acc_)); pos += 1
             elif kind == "u":
@@ -694,6 +696,42 @@ def random_programs(seed, count):
                 if rnd.random() < 0.5:
                     rs.reverse()
                 fields.append(F(nm, T_u(a + b), rs, access=acc_)); pos += a + g + b
+            elif kind == "ncarr":
+                a, g, b = rnd.randint(1, 3), rnd.randint(0, 2), rnd.randint(1, 3)
+                span = a + g + b
+                stride = span + rnd.choice([0, 1, 3])
+                kmax = (room - span) // stride + 1 if room >= span else 0
+                if kmax < 2:
+                    continue
+                K = rnd.randint(2, min(kmax, 4))
+                rs = [(pos, a), (pos + a + g, b)]
+                if rnd.random() < 0.5:
+                    rs.reverse()
+                fields.append(F(nm, T_u(a + b), rs, array=(K, stride), access=acc_)); pos += (K - 1) * stride + span
+            elif kind == "iarr":
+                cands = [n for n in (8, 16, 32) if 2 * n <= room]
+                if not cands:
+                    continue
+                n = rnd.choice(cands)
+                stride = n + rnd.choice([0, 0, 8])
+                kmax = (room - n) // stride + 1
+                if kmax < 2:
+                    continue
+                K = rnd.randint(2, min(kmax, 3))
+                fields.append(F(nm, T_i(n), (pos, n), array=(K, None if stride == n else stride), access=acc_)); pos += (K - 1) * stride + n
+            elif kind == "earr":
+                n = rnd.randint(1, min(3, room))
+                total = 1 << n
+                vals = sorted(rnd.sample(range(total), max(1, total - 1)))
+                rnd.shuffle(vals)
+                e = Enum(f"Ernd{k}x{len(enums)}", n, [(f"V{i}", v) for i, v in enumerate(vals)], exhaustive=None)
+                stride = n + rnd.choice([0, 1, 2])
+                kmax = (room - n) // stride + 1
+                if kmax < 2:
+                    continue
+                K = rnd.randint(2, min(kmax, 4))
+                enums.append(e)
+                fields.append(F(nm, T_enum(e), (pos, n), array=(K, None if stride == n else stride), access=acc_)); pos += (K - 1) * stride + n
             elif kind == "enum":
                 n = rnd.randint(1, min(3, room))
                 total = 1 << n
@@ -705,6 +743,8 @@ def random_programs(seed, count):
                 e = Enum(f"Ernd{k}x{len(enums)}", n, [(f"V{i}", v) for i, v in enumerate(vals)], exhaustive="true" if ex else None)
                 enums.append(e)
                 fields.append(F(nm, T_enum(e), (pos, n), access=acc_)); pos += n
+            if len(fields) > nfields:
+                fields[-1].style = sty
             pos += rnd.choice([0, 0, 0, 1, 2])
         if not fields:
             continue
@@ -736,8 +776,8 @@ def all_programs(tier, seed=0):
     progs += programs_c14(tier)
     progs += programs_debug(tier)
     progs += programs_surface(tier)
-    if tier == "thorough":
-        progs += random_programs(seed, 40)
+    # VERIF_SEED-driven layouts: 40 in the thorough tier, 10 in the quick tier (only the layouts depend on the seed)
+    progs += random_programs(seed, 40 if tier == "thorough" else 10)
     ids = [p.pid for p in progs]
     assert len(ids) == len(set(ids))
     return progs
